@@ -41,7 +41,8 @@ def gen_segment_history(rng, n, strict=False, reject=False):
             ops.append(['remove', rng.randrange(0, 4)])
         elif k == 9:
             ops.append(rng.choice([['copy', name.lower(), val], ['copy', name.lower(), val], ['reattach', name, val], ['add_twice', name, val], ['setelem_attached', name, val],
-                                   ['setparent', name, val], ['setparent_none', rng.randrange(0, 4)], ['settrav_replace', name, val]]))
+                                   ['setparent', name, val], ['setparent_none', rng.randrange(0, 4)], ['settrav_replace', name, val],
+                                   ['move_sibling', name.lower(), rng.randrange(0, 3), rng.randrange(0, 3)]]))
         elif k == 10:
             ops.append(['setlong', name, val])
         else:
@@ -307,6 +308,13 @@ def run_history(h):
                     getattr(root, nm)[0] = fld
                     spec.set(op[1], '', 0)
                     extra.append(('listed', fld))
+            elif kind == 'move_sibling':
+                # assign, by index, a repetition the element already lists (a move inside the element; finding D31).
+                # What a move should yield is not specified by C09: the reference model is re-read from the element afterwards.
+                p = getattr(root, op[1])
+                if len(p) > max(op[2], op[3]) and op[2] != op[3]:
+                    p[op[2]] = p[op[3]]
+                    spec.items = [(c.name, c.to_er7(EC)) for c in root.children]
             elif kind == 'add_twice':
                 f = Field(op[1], version=v, validation_level=lvl)
                 f.value = op[2]
